@@ -28,6 +28,8 @@ type Obligation struct {
 	Src     string // spec source text / description
 	Root    *Root
 	NoModel bool
+	Static  string // "proved"/"failed": decided without a solver (frame obligations over the SSA graph)
+	StaticDetail string
 }
 
 // Root holds everything shared by the encoders of one verified function (root + inlined callees).
@@ -748,6 +750,24 @@ func (e *Enc) encodeBody() {
 		for _, s := range b.Succs {
 			if isBackEdge(b, s) {
 				e.backEdge(b, s)
+			}
+		}
+		// loop exits out of b: "loop Lk ensures" clauses
+		for _, li := range e.loops {
+			if !li.body[b] || li.spec == nil || len(li.spec.Exit) == 0 {
+				continue
+			}
+			for _, s := range b.Succs {
+				if li.body[s] {
+					continue
+				}
+				cond := e.r.def(e.pfx+fmt.Sprintf("exit_%d_%d", b.Index, s.Index), "Bool", e.edgeCond(b, s))
+				for i, ex := range li.spec.Exit {
+					env := e.specEnv(li.head, nil)
+					t := env.boolExpr(ex.E)
+					e.r.addObl(&Obligation{Name: fmt.Sprintf("%s#exit@%s#%d", e.r.fnShort, li.name, i+1), Kind: "loop.exit", Tags: ex.Tags,
+						Goal: fmt.Sprintf("(=> %s %s)", cond, t), Src: "loop " + li.name + " ensures " + ex.Src})
+				}
 			}
 		}
 	}
